@@ -25,8 +25,15 @@ E1 only (exploration).  Sub-checks (names usable with --only):
              routes: same object, same level cache, same counts
   longtext   text forms of longer patterns (all of S5, S6 (thorough), strided S7..S10) alone and
              next to a short pattern.
-  iterator   the same collections handed over as one-shot iterators (known finding, see
-             deviation_iterator()).
+  iterator   (alias forms) FORMS: the same collection through every entry point (Av,
+             Av.from_iterable, Basis/MeshBasis.from_iterable, Basis/MeshBasis(*x); positional and
+             keyword) x every argument form (list, tuple, reversed, repeated element, set,
+             frozenset, dict, dict keys, deque, basis object, seven kinds of one-shot iterator),
+             and collections taken straight from the library's generator-returning helpers
+  abort      ABORT: a BaseException is raised at the k-th call event (every k) inside Basis /
+             MeshBasis / Av / Av.from_iterable / from_string of small collections, from cold
+             and warm class caches; afterwards the construction is repeated on the same and on
+             fresh objects and compared with the reference and with the class object held
 """
 from __future__ import annotations
 
@@ -900,6 +907,203 @@ def shard_pressure(shard):
 
 
 # --------------------------------------------------------------------------------------------
+# ABORT: an exception out of nowhere inside a construction, then construct again
+# --------------------------------------------------------------------------------------------
+
+class _Abort(BaseException):
+    pass
+
+
+def _run_with_abort(fn, k, root):
+    """Run fn(); raise _Abort at the k-th 'call' event of a frame whose code lives under root
+    (k=None: never).  Returns (finished?, number of such events seen)."""
+    import sys
+    seen = [0]
+
+    def tracer(frame, event, arg):
+        if event == "call" and frame.f_code.co_filename.startswith(root):
+            seen[0] += 1
+            if seen[0] == k:
+                sys.settrace(None)
+                raise _Abort()
+        return None
+
+    sys.settrace(tracer)
+    try:
+        fn()
+        return True, seen[0]
+    except _Abort:
+        return False, seen[0]
+    finally:
+        sys.settrace(None)
+
+
+ABORT_COLLECTIONS = [
+    [["perm", [0, 1, 2]], ["perm", [0, 2, 1]], ["perm", [0, 3, 2, 1]]],
+    [["perm", [0, 1]], ["perm", [1, 0]]],
+    [["perm", [1, 0, 2]], ["perm", [1, 0]], ["perm", [0, 1, 2, 3]], ["perm", [1, 0, 2]]],
+    [["mesh", [0], [[0, 1]]], ["mesh", [0], [[0, 0], [0, 1]]]],
+    [["vinc", [0, 1], [1]], ["perm", [2, 1, 0]], ["mesh", [0, 1], [[1, 1]]]],
+    [["biv", [1, 0], [0], [2]], ["mesh", [1, 0], [[0, 0], [0, 1], [0, 2], [0, 2], [1, 2], [2, 2]]],
+     ["perm", [1, 0, 2]]],
+    [["mesh", [], [[0, 0]]], ["perm", [0]], ["covinc", [0, 1], [1]]],
+]
+ABORT_OPS = ("Basis", "MeshBasis", "Av", "Av.from_iterable", "Av(basis)", "Basis.from_string",
+             "Av.from_string")
+
+
+def abort_case_ops(specs):
+    classical = all(F.is_classical(sp) for sp in specs)
+    for op in ABORT_OPS:
+        if op in ("Basis", "Basis.from_string", "Av.from_string") and not classical:
+            continue
+        for warm in (False, True):
+            if op in ("Basis", "MeshBasis", "Basis.from_string") and warm:
+                continue            # no class object involved
+            yield op, warm
+
+
+def _in_child(fn):
+    """Run fn() in a forked child and return its JSON-able result.  Every injection gets a
+    process of its own, so that whatever an earlier run (or its read-back) memoised anywhere -
+    including memo tables this harness does not know about - cannot shield a later injection:
+    each one starts from the state of a process that has never constructed anything."""
+    import json
+    import os
+    r, w = os.pipe()
+    pid = os.fork()
+    if pid == 0:
+        code = 0
+        try:
+            os.close(r)
+            try:
+                out = fn()
+            except BaseException as exc:  # noqa
+                out = {"child_exception": repr(exc)}
+            with os.fdopen(w, "w") as fh:
+                fh.write(json.dumps(out))
+        except BaseException:  # noqa
+            code = 1
+        finally:
+            os._exit(code)
+    os.close(w)
+    with os.fdopen(r) as fh:
+        data = fh.read()
+    os.waitpid(pid, 0)
+    try:
+        return json.loads(data)
+    except ValueError:
+        return {"child_exception": "no result from the child process (it died)"}
+
+
+def abort_attempt(ci, op, warm, k):
+    """In a fresh child: bring the collection into being (optionally holding its class object
+    already), run `op` with an injection at call event k (None: undisturbed), read back.
+    Returns {"total": events seen, "finished": bool, "problems": [...]}."""
+    import os
+    import signal
+    import sys
+    from ..core import REPO
+    L = lib()
+    specs = ABORT_COLLECTIONS[ci]
+    classical = all(F.is_classical(sp) for sp in specs)
+    ref_min = frozenset(minimal(frozenset(F.sem(sp) for sp in specs)))
+    kind = L.Basis if classical else L.MeshBasis
+    text = " ".join(F.text1(tuple(sp[1])) for sp in specs) if classical else None
+    root = os.path.join(os.path.abspath(REPO), "permuta") + os.sep
+    objs = [build(sp) for sp in specs]
+    held = L.Av(list(build(sp) for sp in specs)) if warm else None
+    if op == "Basis":
+        fn = lambda: L.Basis(*objs)                                   # noqa
+    elif op == "MeshBasis":
+        fn = lambda: L.MeshBasis(*objs)                               # noqa
+    elif op == "Av":
+        fn = lambda: L.Av(list(objs))                                 # noqa
+    elif op == "Av.from_iterable":
+        fn = lambda: L.Av.from_iterable(iter(objs))                   # noqa
+    elif op == "Av(basis)":
+        fn = lambda: L.Av(kind(*objs))                                # noqa
+    elif op == "Basis.from_string":
+        fn = lambda: L.Basis.from_string(text)                        # noqa
+    else:
+        fn = lambda: L.Av.from_string(text)                           # noqa
+
+    def on_alarm(signum, frame):
+        raise TimeoutError("read-back did not finish within 20 s")
+
+    signal.signal(signal.SIGALRM, on_alarm)
+    sys.unraisablehook = lambda unraisable: None
+    finished, total = _run_with_abort(fn, k, root)
+    problems = []
+    signal.alarm(20)
+    try:
+        fresh = [build(sp) for sp in specs]
+        for name, mk in (("MeshBasis(same objects)", lambda: L.MeshBasis(*objs)),
+                         ("MeshBasis(fresh objects)", lambda: L.MeshBasis(*fresh[::-1]))):
+            got = [readback(e) for e in mk()]
+            if len(got) != len(set(got)) or set(got) != ref_min:
+                problems.append({"call": name, "got": [show(e) for e in got]})
+        if classical:
+            b1, b2 = L.Basis(*objs), L.Basis(*fresh[::-1])
+            b3 = L.Basis.from_string(text)
+            for name, b in (("Basis(same objects)", b1), ("Basis(fresh objects)", b2),
+                            ("Basis.from_string", b3)):
+                got = [readback(e) for e in b]
+                if len(got) != len(set(got)) or set(got) != ref_min:
+                    problems.append({"call": name, "got": [show(e) for e in got]})
+            if not (_same(b1, b2) and _same(b1, b3)):
+                problems.append({"call": "Basis same/fresh/from_string differ"})
+        avs = [("Av(same objects)", L.Av(list(objs))),
+               ("Av.from_iterable(fresh)", L.Av.from_iterable(iter(fresh))),
+               ("Av(basis)", L.Av(kind(*fresh)))]
+        if classical:
+            avs.append(("Av.from_string", L.Av.from_string(text)))
+        for name, av in avs:
+            got = set(readback(e) for e in av.basis)
+            if got != ref_min or type(av.basis) is not kind:
+                problems.append({"call": name, "basis": repr(av.basis)})
+            if av is not avs[0][1]:
+                problems.append({"call": name, "same_object_as": avs[0][0], "answer": False})
+            if held is not None and av is not held:
+                problems.append({"call": name, "same_object_as":
+                                 "the class object obtained before the abort", "answer": False})
+            if len(av.cache) < 1 or [av.count(n) for n in range(4)] != \
+                    [avs[0][1].count(n) for n in range(4)]:
+                problems.append({"call": name, "counts": [av.count(n) for n in range(4)]})
+    except TimeoutError as exc:
+        problems.append({"hang": str(exc)})
+    except Exception as exc:  # noqa
+        problems.append({"exception_in_read_back": repr(exc)})
+    signal.alarm(0)
+    return {"total": total, "finished": finished, "problems": problems[:4]}
+
+
+def shard_abort(shard):
+    ci, op, warm = shard[:3]
+    only_k = shard[3] if len(shard) > 3 else None
+    part = Partial()
+    specs = ABORT_COLLECTIONS[ci]
+    res = _in_child(lambda: abort_attempt(ci, op, warm, None))
+    if "total" not in res or res["problems"]:
+        part.violation("abort", {"collection": ci, "specs": specs, "op": op,
+                                 "warm_class_cache": warm, "abort_at_call": None}, res)
+        return part
+    total = res["total"]
+    for k in ([only_k] if only_k else range(1, total + 1)):
+        case = {"collection": ci, "specs": specs, "op": op, "warm_class_cache": warm,
+                "abort_at_call": k}
+        res = _in_child(lambda: abort_attempt(ci, op, warm, k))
+        if "child_exception" in res:
+            part.violation("abort", case, res)
+        elif res["problems"]:
+            part.violation("abort", case, {"aborted_before_completion": not res["finished"],
+                                           "problems": res["problems"]})
+        part.add(1, 0 if res.get("finished") else 1)
+    part.bump("abort_points", total)
+    return part
+
+
+# --------------------------------------------------------------------------------------------
 # one-shot iterators (known finding)
 # --------------------------------------------------------------------------------------------
 
@@ -936,25 +1140,146 @@ def show_outcome(o):
     return list(o[:2]) + ([showset(o[2])] if len(o) > 2 else [])
 
 
-def check_iterator(part, specs):
+def argument_forms(objs, classical):
+    """(name, thunk -> argument, one_shot?) for every form an 'iterable of patterns' can take."""
+    import collections
     L = lib()
-    want = correct_outcome(specs)
+    forms = [
+        ("list", lambda: list(objs), False),
+        ("tuple", lambda: tuple(objs), False),
+        ("list reversed", lambda: list(objs)[::-1], False),
+        ("list with the first element repeated at the end", lambda: list(objs) + list(objs)[:1],
+         False),
+        ("set", lambda: set(objs), False),
+        ("frozenset", lambda: frozenset(objs), False),
+        ("dict keys view", lambda: dict.fromkeys(objs).keys(), False),
+        ("dict", lambda: dict.fromkeys(objs), False),
+        ("deque", lambda: collections.deque(objs), False),
+        ("MeshBasis object", lambda: L.MeshBasis(*objs), False),
+        ("iter(list)", lambda: iter(list(objs)), True),
+        ("generator", lambda: (x for x in objs), True),
+        ("map", lambda: map(lambda x: x, objs), True),
+        ("filter", lambda: filter(lambda x: True, objs), True),
+        ("itertools.chain", lambda: itertools.chain(objs[:1], objs[1:]), True),
+        ("reversed()", lambda: reversed(list(objs)), True),
+        ("iter(dict)", lambda: iter(dict.fromkeys(objs)), True),
+    ]
+    if classical:
+        forms.append(("Basis object", lambda: L.Basis(*objs), False))
+    return forms
+
+
+def entry_points(classical):
+    """(name, callable(arg), returns a class object?)"""
+    L = lib()
+    eps = [("Av(x)", lambda x: L.Av(x), True),
+           ("Av(basis=x)", lambda x: L.Av(basis=x), True),
+           ("Av.from_iterable(x)", lambda x: L.Av.from_iterable(x), True),
+           ("Av.from_iterable(basis=x)", lambda x: L.Av.from_iterable(basis=x), True),
+           ("MeshBasis.from_iterable(x)", lambda x: L.MeshBasis.from_iterable(x), False),
+           ("MeshBasis.from_iterable(patts=x)", lambda x: L.MeshBasis.from_iterable(patts=x), False),
+           ("MeshBasis(*x)", lambda x: L.MeshBasis(*x), False)]
+    if classical:
+        eps += [("Basis.from_iterable(x)", lambda x: L.Basis.from_iterable(x), False),
+                ("Basis.from_iterable(patts=x)", lambda x: L.Basis.from_iterable(patts=x), False),
+                ("Basis(*x)", lambda x: L.Basis(*x), False)]
+    return eps
+
+
+def form_outcome(f, arg, is_av):
+    try:
+        res = f(arg)
+    except Exception as exc:  # noqa
+        return ("exception", type(exc).__name__)
+    b = res.basis if is_av else res
+    return ("ok", type(b).__name__, frozenset(readback(e) for e in b))
+
+
+def check_iterator(part, specs):
+    """FORMS: one collection through every entry point x every argument form."""
+    classical = all(F.is_classical(s) for s in specs)
+    ref_min = frozenset(minimal(frozenset(F.sem(s) for s in specs)))
+    want_av = correct_outcome(specs)
     dev = deviation_iterator(specs)
     evals = 0
-    for name, f, mk in (("Av.from_iterable(iter(list))", L.Av.from_iterable, lambda o: iter(o)),
-                        ("Av(iter(list))", L.Av, lambda o: iter(o)),
-                        ("Av.from_iterable(generator)", L.Av.from_iterable,
-                         lambda o: (x for x in o)),
-                        ("Av(map)", L.Av, lambda o: map(lambda x: x, o))):
+    for ename, f, is_av in entry_points(classical):
+        if is_av:
+            want = want_av
+        else:
+            want = ("ok", "Basis" if ename.startswith("Basis") else "MeshBasis", ref_min)
         objs = [build(s) for s in specs]
-        got = outcome_of(f, mk(objs))
-        evals += 1
-        if got == want:
-            continue
-        part.violation("iterator", {"specs": specs, "call": name},
-                       {"expected": show_outcome(want), "got": show_outcome(got)},
-                       sig=SIG_ITER if got == dev else None)
+        for fname, mk, one_shot in argument_forms(objs, classical):
+            if fname == "MeshBasis object" and ename.startswith("Basis"):
+                continue            # a Basis is made of classical patterns only
+            w = want
+            if is_av and fname == "MeshBasis object":
+                w = ("ok", "MeshBasis", ref_min)     # an explicit MeshBasis stays one
+            try:
+                arg = mk()
+            except Exception as exc:  # noqa
+                part.violation("forms", {"specs": specs, "call": ename, "form": fname},
+                               {"exception_building_the_argument": repr(exc)})
+                continue
+            got = form_outcome(f, arg, is_av)
+            evals += 1
+            if got == w:
+                continue
+            part.violation("iterator" if one_shot else "forms",
+                           {"specs": specs, "call": ename, "form": fname},
+                           {"expected": show_outcome(w), "got": show_outcome(got)},
+                           sig=SIG_ITER if (one_shot and is_av and got == dev) else None)
     return evals
+
+
+def check_helper_forms(part):
+    """Collections handed over straight from the library's own generator-returning helpers,
+    and the keyword spellings of the text entry points."""
+    L = lib()
+    s3 = R.perms(3)
+    av012 = sorted(p for p in s3 if p != (0, 1, 2))
+    cases = [
+        ("Av.from_iterable(Perm.of_length(1))", lambda: L.Av.from_iterable(L.Perm.of_length(1)),
+         True, "Basis", [(p, frozenset()) for p in R.perms(1)]),
+        ("Av(Perm.of_length(2))", lambda: L.Av(L.Perm.of_length(2)),
+         True, "Basis", [(p, frozenset()) for p in R.perms(2)]),
+        ("Basis.from_iterable(Perm.of_length(3))", lambda: L.Basis.from_iterable(L.Perm.of_length(3)),
+         False, "Basis", [(p, frozenset()) for p in s3]),
+        ("Basis(*Perm.of_length(3))", lambda: L.Basis(*L.Perm.of_length(3)),
+         False, "Basis", [(p, frozenset()) for p in s3]),
+        ("MeshBasis.from_iterable(MeshPatt.of_length(1))",
+         lambda: L.MeshBasis.from_iterable(L.MeshPatt.of_length(1)),
+         False, "MeshBasis", [((0,), frozenset())]),
+        ("Av(MeshPatt.of_length(1))", lambda: L.Av(L.MeshPatt.of_length(1)),
+         True, "MeshBasis", [((0,), frozenset())]),
+        ("Av.from_iterable(MeshPatt.of_length(1, Perm((0,))))",
+         lambda: L.Av.from_iterable(L.MeshPatt.of_length(1, L.Perm((0,)))),
+         True, "MeshBasis", [((0,), frozenset())]),
+        ("Av(Av([012]).of_length(3))",
+         lambda: L.Av(L.Av([L.Perm((0, 1, 2))]).of_length(3)),
+         True, "Basis", [(p, frozenset()) for p in av012]),
+        ("Av(iter(Basis))", lambda: L.Av(iter(L.Basis(L.Perm((0, 2, 1)), L.Perm((1, 0))))),
+         True, "Basis", [((1, 0), frozenset())]),
+        ("Basis.from_string(patts=...)", lambda: L.Basis.from_string(patts="132, 4321"),
+         False, "Basis", [((0, 2, 1), frozenset()), ((3, 2, 1, 0), frozenset())]),
+        ("Av.from_string(basis=...)", lambda: L.Av.from_string(basis="021_3210"),
+         True, "Basis", [((0, 2, 1), frozenset()), ((3, 2, 1, 0), frozenset())]),
+    ]
+    for name, f, is_av, kind, elems in cases:
+        want = ("ok", kind, frozenset(elems))
+        got = form_outcome(lambda _: f(), None, is_av)
+        if got != want:
+            part.violation("forms", {"helper": name},
+                           {"expected": show_outcome(want), "got": show_outcome(got)})
+        part.add(1, 1)
+    # the class object is the same whichever spelling produced it
+    try:
+        a = L.Av.from_string(basis="021_3210")
+        if not (a is L.Av.from_string("132 4321") is L.Av([L.Perm((3, 2, 1, 0)), L.Perm((0, 2, 1))])):
+            part.violation("forms", {"helper": "Av.from_string keyword / positional / list"},
+                           {"same_object": False})
+    except Exception as exc:  # noqa
+        part.violation("forms", {"helper": "Av.from_string keyword / positional / list"},
+                       {"exception": repr(exc)})
 
 
 def shard_iterator(shard):
@@ -964,8 +1289,10 @@ def shard_iterator(shard):
     for seq in seqs:
         specs = [pool[i] for i in seq]
         n = check_iterator(part, specs)
-        part.add(n, 1 if (len(set(map(repr, specs))) > 1
+        part.add(n, n if (len(set(map(repr, specs))) > 1
                           and len(set(s[0] for s in specs)) > 1) else 0)
+    if poolname == "sub" and seqs and seqs[0] == (0,):
+        check_helper_forms(part)
     return part
 
 
@@ -1089,7 +1416,23 @@ def run(ctx, only=None):
                                   "next_to": "nothing or one pattern of S1..S3, both orders",
                                   "forms": "separators x numberings"}
         ctx.section("longtext", long_patterns=len(longs), evaluations=ctx.evals - e0)
-    if want("iterator"):
+    if want("abort"):
+        e0 = ctx.evals
+        # quick: four of the seven collections (every injection costs a process)
+        use = (0, 1, 3, 4) if quick else range(len(ABORT_COLLECTIONS))
+        shards = [(ci, op, warm) for ci in use
+                  for op, warm in abort_case_ops(ABORT_COLLECTIONS[ci])]
+        ctx.pmap(shard_abort, shards)
+        ctx.bounds["abort"] = {"collections": [ABORT_COLLECTIONS[ci] for ci in use],
+                               "operations": list(ABORT_OPS),
+                               "class_cache": ["cold", "holding the class already"],
+                               "injection_points": ctx.counters.get("abort_points", 0),
+                               "cases": len(shards), "bound": "one injection per run, every k; "
+                               "every injection in a forked process of its own"}
+        ctx.section("abort", cases=len(shards),
+                    injection_points=ctx.counters.get("abort_points", 0),
+                    evaluations=ctx.evals - e0)
+    if want("iterator") or want("forms"):
         e0 = ctx.evals
         pool = POOLS["sub"]
         seqs = [(i,) for i in range(len(pool))] + \
@@ -1102,9 +1445,13 @@ def run(ctx, only=None):
         if not quick:
             shards += [("deep", seqs[n2:][i::32]) for i in range(32)]
         ctx.pmap(shard_iterator, shards)
-        ctx.bounds["iterator"] = "all sequences of length<=2 over the sub pool" + \
+        ctx.bounds["iterator"] = "FORMS: all sequences of length<=2 over the sub pool" + \
             ("" if quick else " and of length 3 over the deep pool") + \
-            ", as iter(list), generator and map object, through Av and Av.from_iterable"
+            ", through 7 entry points (10 for classical sequences; positional and keyword) x " \
+            "17-18 argument forms (list, tuple, reversed, repeated element, set, frozenset, " \
+            "dict, dict keys, deque, Basis/MeshBasis object, and 7 one-shot iterators); plus " \
+            "11 collections taken straight from the library's generator helpers / keyword " \
+            "text entry points"
         ctx.section("iterator", sequences=len(seqs), evaluations=ctx.evals - e0)
 
 
@@ -1140,6 +1487,9 @@ def replay(ctx, rec):
     elif sub.startswith("classical:"):
         pset = tuple(tuple(p) for p in case["patterns"])
         check_classical_set(ctx, pset, profiles(7), "full" if len(pset) <= 2 else "short")
+    elif sub == "abort":
+        ctx.merge(shard_abort((case["collection"], case["op"], case["warm_class_cache"],
+                               case["abort_at_call"])))
     elif sub.startswith("pressure:"):
         run_pressure(ctx, case["stream"], case["limit_pow"], case["margin"],
                      stop_at=case["n_others"])
@@ -1154,7 +1504,10 @@ def replay(ctx, rec):
         if sub == "text:av":
             av = L.Av(L.Basis(*[L.Perm(p) for p in seq]))
         check_text(ctx, seq, ref_min, case["text"], case["form"], av)
-    elif sub == "iterator":
-        check_iterator(ctx, case["specs"])
+    elif sub in ("iterator", "forms"):
+        if "helper" in case:
+            check_helper_forms(ctx)
+        else:
+            check_iterator(ctx, case["specs"])
     else:
         raise ValueError("unknown sub-check %r" % sub)
